@@ -11,6 +11,9 @@ implies the bound for the exact residual.
 import time
 from fractions import Fraction
 import z3
+import sys as _sys
+if hasattr(_sys, 'set_int_max_str_digits'):
+    _sys.set_int_max_str_digits(0)      # z3 model values can have thousands of digits
 from symtorch import poly as P
 from symtorch.poly import Poly
 
